@@ -33,7 +33,7 @@ REGISTRATION = {
             "auto-detected template/params bytes per pool file), template validity. Guards that remain on the "
             "repaired tree: files planted under a blob name hold that content (LitterOk/LegacyOk, non-API faults "
             "only). Registry manifests are assumed truthful about SIZES (PullOk; PullModel never checks them). Outside the model: the "
-            "pull protocol itself (C03), adapters/projectors, safetensors, quantize, directories "
+            "pull protocol itself (C03), the `adapters` field of a create request, safetensors, quantize, directories "
             "inside blobs/, case-insensitive file systems. Tie 1 (decide over facts regenerated from the source): the "
             "behaviour of GetBlobsPath on every class of digest string (the real function executed by the driver, compared "
             "with the model's reading of digest strings) and the startup sequence of Serve, which the driver transcribes.",
@@ -101,6 +101,10 @@ THEOREMS = [
     "OllamaVerif.Store.createFromPull_good",
     "OllamaVerif.C04.create_from_pull_good",
     "OllamaVerif.C04.N4_createFromPull_witness",
+    # N6: a GGUF of kind adapter / projector gives an adapter / projector layer; the show theorems carry the guard
+    # ModelKinds (no such GGUF); without it an adapter-only create is listed and cannot be shown
+    "OllamaVerif.C04.N6_witness",
+    "OllamaVerif.C04.rEnv_kinds",
     # the guard about auto-detected layers (N2): met by every `from` create, void once N2 is repaired, decidable
     "OllamaVerif.C04.apartOp_of_from",
     "OllamaVerif.C04.apartOp_of_fixKeep",
@@ -289,6 +293,8 @@ def run(ctx):
         "`create ... from` of a model that is not in the store (the pull inside parseFromModel) is the model function "
         "createFromPull (invariant + frame proved, L1 exact) but not an operation of `step`: the history theorems, in "
         "particular the case-twin ones, do not quantify over it (finding N4, fixed db13baf30: the FROM name is resolved first; residual: `create Foo from foo` with neither in the store pulls foo and then writes Foo — never generated)",
+        "ModelKinds: `listed can be shown` is proved for worlds without adapter / projector GGUFs; with one, a create from "
+        "files that hold nothing else is listed and show answers 404 (known finding N6, Lean witness N6_witness)",
         "GGUF decoding, template.Named and template.Parse are parameters of the model, fed per pool file / per request from the real functions",
         "valid name parts are ASCII, so the model's ASCII case folding agrees with strings.EqualFold",
         "outside the model: pull protocol (C03), resume of interrupted pulls, adapters/projectors, safetensors, quantize, "
